@@ -83,8 +83,9 @@ func SetCondition(status map[string]interface{}, condition *StatusCondition) err
 		for i, item := range conditions {
 			if cobj, ok := item.(map[string]interface{}); ok {
 				if ctype, ok := cobj["type"].(string); ok && ctype == condition.Type {
+					// NestedSlice returned a copy, so write the updated list back.
 					conditions[i] = condition.Object()
-					return nil
+					return unstructured.SetNestedField(status, conditions, "conditions")
 				}
 			}
 		}
